@@ -264,6 +264,8 @@ def apply_step(step, vals, shared=None, salt=0, variant=0):
         return getattr(pt, op)(a[0], a[1])
     if op == "scalar":
         c = complex(*p["c"]) if isinstance(p["c"], list) else p["c"]
+        if c == "nan":
+            c = float("nan")
         if variant:
             c = c + variant
         if p.get("ctype"):
@@ -569,11 +571,28 @@ class _G:
             return self.try_step({"op": rng.choice(UNARY), "args": [a]})
         if k == "binary":
             b = self.pick()
+            if rng.random() < 0.4:
+                # same dtype on both sides (float32 with float32, complex
+                # with complex, ...): the common dtype, and with it the type
+                # of the literals pytato inserts (NaN in maximum / minimum),
+                # is then not float64 for once
+                b2 = self.pick(lambda v: v.dtype == va.dtype)
+                if b2 is not None:
+                    b = b2
             return self.try_step({"op": rng.choice(BINARY), "args": [a, b]})
         if k == "scalar":
             c = rng.choice([2, -1, 0.5, 3, 1.5, [1.0, 2.0]])
             pp = {"c": c, "kind": rng.choice(
                 ["add", "radd", "mul", "rsub", "rdiv", "div", "pow", "cmp"])}
+            if rng.random() < 0.06:
+                # a NaN literal, of any inexact type
+                pp["c"] = "nan"
+                pp["ctype"] = rng.choice([None, None, "float32", "float64",
+                                          "float16", "complex64", "complex128"])
+                if pp["ctype"] is None:
+                    del pp["ctype"]
+                pp["kind"] = rng.choice(["add", "radd", "mul", "rsub"])
+                return self.try_step({"op": "scalar", "args": [a], "p": pp})
             if rng.random() < 0.35:
                 if isinstance(c, list):
                     pp["ctype"] = rng.choice(["complex64", "complex128"])
